@@ -35,7 +35,7 @@ SPEC = {
     "witnesses": ["F6", "F7", "F8", "F31", "F43"],
     "rule": ("deterministic matrix: every public operation of dir(list)/dir(dict) x {valid, normalisable, invalid} item x "
              "every iterable kind (incl. typed lists of another item field held by another and by the SAME configuration) / "
-             "update call form (dict, pairs as tuples / 2-lists / iterator / generator, UserDict, MappingProxyType, a Mapping "
+             "update / |= / constructor call form (dict, pairs as list of tuples / list of 2-lists / tuple of pairs / iterator / generator, UserDict, MappingProxyType, a Mapping "
              "subclass, a duck-typed keys()+__getitem__ object, compatible proxy, same field of another configuration, another "
              "field of another and of the same configuration, keywords) x containers of length 0/1/3 x 4 list item fields (IntField with "
              "bounds, required IntField, StringField lower+strip, BoolField) and 3 dict field pairs (str->int, int->str, "
